@@ -39,6 +39,10 @@ DATA = {
 }
 
 
+# D1 is created with an assembly name and metadata, D2 with neither: a re-creation with the other data set must replace them
+META = {"D1": {"assembly": "asmD1", "metadata": {"sample": "one", "n": 1}}, "D2": {}}
+
+
 def data_content(d):
     table, cells = DATA[d]
     bins = alpha.table_bins(table, "chr")
@@ -117,7 +121,7 @@ class World:
             _, f, p, d, mode = op
             bins, pix = data_content(d)
             cooler.create_cooler(self.uri(f, p, k), build.bins_df(bins), fx.frame(pix), columns=["count", "score"],
-                                 dtypes={"score": float}, ordered=True, mode=mode)
+                                 dtypes={"score": float}, ordered=True, mode=mode, **META[d])
         else:
             _, sf, sp, df, dp = op
             s, t = self.uri(sf, sp, k), self.uri(df, dp, k + 1)
@@ -225,6 +229,11 @@ def observe(R, inner, w, m, seeded, paths=PATHS):
                     R.mismatch("collection-does-not-read-as-its-content", inner, f"file={f} path={p} data={d} bins={gb} pixels={gp}")
                     ok = False
                 info = clr.info
+                want_asm = META[d].get("assembly", "unknown")
+                want_md = META[d].get("metadata", {})
+                if info.get("genome-assembly") != want_asm or info.get("metadata") != want_md:
+                    R.mismatch("collection-attributes-differ", inner, f"file={f} path={p} data={d} assembly={info.get('genome-assembly')!r} metadata={info.get('metadata')!r}")
+                    ok = False
                 if info.get("nnz") != len(wp) or info.get("nbins") != len(wb) or info.get("sum") != sum(v[0] for v in wp.values()):
                     R.mismatch("collection-attributes-differ", inner, f"file={f} path={p} info={ {k: info.get(k) for k in ('nnz', 'nbins', 'sum')} }")
                     ok = False
@@ -269,7 +278,7 @@ def initial(init, d):
     if init == "seeded":
         import cooler
         bins, pix = data_content("D1")
-        cooler.create_cooler(w.path("X"), build.bins_df(bins), fx.frame(pix), columns=["count", "score"], dtypes={"score": float}, ordered=True)
+        cooler.create_cooler(w.path("X"), build.bins_df(bins), fx.frame(pix), columns=["count", "score"], dtypes={"score": float}, ordered=True, **META["D1"])
         with h5py.File(w.path("X"), "r+") as f:
             g = f.create_group("foreign")
             g.attrs["x"] = 1
@@ -283,7 +292,7 @@ def initial(init, d):
         import cooler
         from cooler import fileops
         bins, pix = data_content("D1")
-        cooler.create_cooler(w.path("X") + "::/a", build.bins_df(bins), fx.frame(pix), columns=["count", "score"], dtypes={"score": float}, ordered=True)
+        cooler.create_cooler(w.path("X") + "::/a", build.bins_df(bins), fx.frame(pix), columns=["count", "score"], dtypes={"score": float}, ordered=True, **META["D1"])
         with h5py.File(w.path("X"), "r+") as f:
             f["/c"] = h5py.SoftLink("/a")
             f["/h"] = f["/a"]
